@@ -86,6 +86,10 @@ func script(t N) string {
 	sb.WriteString("func addsend(a, b, d) { d <- (a + b) }\ny = 7\nz := 1\ngo addsend(y, z, dd)\ny = 70\nz = 10\ng5 := <-dd\nmark(\"go\", 5, g5)\n")
 	sb.WriteString("y = 9\ngo dd.send(y)\ny = 90\ng6 := <-dd\nmark(\"go\", 6, g6)\n")
 	sb.WriteString("func outer(p) {\nq := p + 1\nt := spawn(func(a) { return a }, q)\ngo addsend(q, p, dd)\nq = 0\np = 0\ng7 := <-dd\nreturn t.wait() * 100 + g7\n}\nmark(\"go\", 7, outer(3))\n")
+	// closures over shared and private state: a spawned closure writes the enclosing function's variable (shared cell,
+	// visible after wait) and its own parameter copy (private)
+	sb.WriteString("func shared(p) {\nn := 1\nt := spawn(func(a) {\nn = n + a\na = a + 100\nreturn a\n}, p)\nr := t.wait()\nreturn [r, n, p]\n}\nmark(\"closure\", 8, shared(5))\n")
+	sb.WriteString("gcount := 0\nfunc bump(k) {\ngcount = gcount + k\nreturn gcount\n}\ntb := bump.spawn(3)\ntb.wait()\ndg := chan(1)\ngo func(k, d) {\nbv := bump(k)\nd <- bv\n}(4, dg)\ng9 := <-dg\nmark(\"closure\", 9, [g9, gcount])\n")
 	sb.WriteString("\"done\"\n")
 	return sb.String()
 }
@@ -143,7 +147,11 @@ func runWorker(req N) (resp N) {
 		mu.Unlock()
 	})
 	src := script(req)
-	ctx, cancel := context.WithTimeout(context.Background(), 60*time.Second)
+	limit := 60 * time.Second
+	if t, ok := req["timeout_s"].(float64); ok && t > 0 {
+		limit = time.Duration(t) * time.Second
+	}
+	ctx, cancel := context.WithTimeout(context.Background(), limit)
 	defer cancel()
 	stdout := ros.NewBufferFile(nil)
 	vos := ros.NewVirtualOS(ctx, ros.WithStdout(stdout))
